@@ -76,6 +76,7 @@ THEOREMS = ["OllamaVerif.C18." + t for t in (
     "grammar_retry_admissible_fixed_on",
     # the admissibility clauses hold for ANY correct top-k stage (pdqsort's order among equal logits is immaterial)
     "SampleWith_topK", "sampleWith_admissible", "sampleWith_admissible_fixed_on",
+    "newParams_in_range", "xClampLawsOn",
     "deterministic", "hist_nth", "Sample_indep_r", "stream_of_seed", "grammar_step_spec",
     "grammar_retry_admissible_partial", "grammar_retry_admissible_fixed_partial", "grammar_retry_greedy",
     "masked_not_neginf_accepted", "maskLogits_get", "F18_nan_instead_of_token", "F18_guard_fails",
@@ -91,7 +92,7 @@ THEOREMS = ["OllamaVerif.C18." + t for t in (
     "OllamaVerif.Sampler.afterTopK_spec_fix_on",
     # Tie 1: call-site wiring (go/ast) and the variant the tree implements (probe)
     "OllamaVerif.Tie.C18.callsites_wired", "OllamaVerif.Tie.C18.tree_request_sampler",
-    "OllamaVerif.Tie.C18.tree_is_fixed", "OllamaVerif.Tie.C18.treeSample_eq", "OllamaVerif.Tie.C18.tree_no_spurious_allNegInf",
+    "OllamaVerif.Tie.C18.tree_request_params_in_range", "OllamaVerif.Tie.C18.tree_is_fixed", "OllamaVerif.Tie.C18.treeSample_eq", "OllamaVerif.Tie.C18.tree_no_spurious_allNegInf",
 ]
 OVERLAY = {"sample/zz_verif_c18_test.go": "sample/zz_verif_c18_test.go",
            "sample/zz_verif_c18_grammar_test.go": "sample/zz_verif_c18_grammar_test.go"}
